@@ -1083,9 +1083,11 @@ func (vc *VC) bytesOfString(st *State, v Val, rt types.Type, name string) Val {
 }
 
 func (vc *VC) stringOfBytes(st *State, v Val, rt types.Type, name string) Val {
-	r := vc.fresh(name, vc.sortOf(rt))
+	// an uninterpreted function of the bytes (slice length and contents): equal byte
+	// sequences give equal strings; nothing else is known about the string
+	r := vc.define(name, vc.pureApp("string.ofbytes", []Val{v}, types.Typ[types.String], func(comp, srt string) Term { return vc.heapGet(st, comp, srt) }))
 	vc.assert(vc.typeInv(r, rt, Term{}))
-	vc.note("string([]byte) abstracted to a fresh string")
+	vc.note("string([]byte): an uninterpreted function of the byte sequence")
 	return Val{Ty: rt, T: r}
 }
 
